@@ -40,3 +40,6 @@ print("   target miu", tgt.miu, "frame", f.data[:6].hex(), "transport data bytes
 print("4. same with LRi=254: the LEN byte would be 256")
 res, ini, tgt, air = conv(10, [], did=1, lri=3, reply=251, show=False)
 print("   target:", res[1])
+print("5. did=0 (no faults at all): the initiator sends a DID byte 0, the target holds did=None and ignores every PDU")
+res, ini, tgt, air = conv(10, [], did=0)
+print("   initiator:", res[0])
